@@ -249,6 +249,11 @@ func Main(t *testing.T, scens map[string]Scenario) {
 		okRun := t.Run(fmt.Sprintf("r%d", run), func(t *testing.T) {
 			ctx.T = t
 			kern.T = t
+			defer func() {
+				if ctx.Sim != nil {
+					ctx.Sim.Close() // a kernel that was created and never Run still holds its pipe
+				}
+			}()
 			sc(ctx)
 		})
 		newRace := raceLogSince(&raceOff)
